@@ -655,6 +655,9 @@ func targetedScenario(run *vlib.Run, i int, agg *vlib.HitAgg) {
 	evs := e.merged()
 	sh, _, feats := e.shape(evs, ov)
 	run.Case(fmt.Sprintf("targeted pre=%v %s", preWaiter, sh), inj.Fired())
+	if n <= 2 {
+		porcupineCheck(run, i, e, evs, 24)
+	}
 	for f, c := range feats {
 		run.Count("observed:"+f, c)
 	}
@@ -775,8 +778,12 @@ func porcupineScenario(run *vlib.Run, i int, agg *vlib.HitAgg) {
 	if !ok {
 		return
 	}
-	evs := e.merged()
-	// cut the capacity-check epilogue off: keep the scripted part only if short
+	porcupineCheck(run, i, e, e.merged(), 12+2*e.n+2)
+}
+
+// porcupineCheck feeds the history of a finished scenario (scripted part plus
+// the 2n+2 operations of the capacity check) to porcupine.
+func porcupineCheck(run *vlib.Run, i int, e *env, evs []event, maxOps int) {
 	normal := map[int]bool{}
 	e.mu.Lock()
 	for _, h := range e.holders {
@@ -786,8 +793,7 @@ func porcupineScenario(run *vlib.Run, i int, agg *vlib.HitAgg) {
 	}
 	e.mu.Unlock()
 	ops := history(evs, normal)
-	if len(ops) > 12+2*e.n+2 {
-		// the epilogue adds 2n+2 operations; bound the scripted part
+	if len(ops) > maxOps {
 		run.Count("porcupine:skipped_long", 1)
 		return
 	}
@@ -824,7 +830,7 @@ func TestCheck(t *testing.T) {
 	defer run.Finish()
 	run.Rule("three seeded families on the real limiter: (1) targeted: n in 1..4, H1 inside TemporarilyRelease, n others hold, a foreign release of H1 is injected at hook limiter.block.reacquiring and an extra Acquire is issued (with/without an Acquire already parked, with/without random yields); " +
 		"(2) random: n in 1..4, 2..24 goroutines, each 1..3 Acquire segments on a limiter / pre-cancelled / limiter-less / concurrently-cancelled context with bodies of nested TemporarilyRelease (depth<=3), early and double release, release inside own TemporarilyRelease, release of other goroutines' holders (also aimed at a returning TemporarilyRelease), TemporarilyRelease without holder, random hook yields and an optional injected release at a limiter hook; every scenario ends with the capacity check (n fresh Acquires, Acquire on cancelled / limiter-less contexts while all tokens are held, (n+1)-th Acquire only after a release); " +
-		"(3) short random histories (<=12 scripted operations plus the capacity check, n in 1..2, 2..4 goroutines) additionally checked with porcupine against a counting-semaphore model. " +
+		"(3) the targeted histories with n<=2 and short random histories (<=12 scripted operations plus the capacity check, n in 1..2, 2..4 goroutines) additionally checked with porcupine against a counting-semaphore model. " +
 		"Non-trivial = the limit was reached in the scripted part (observed overlap == n before the capacity check) and some holder had a TemporarilyRelease plus a foreign release or a release inside it; distinct = n, max overlap and the multiset of per-holder lifecycles (outermost TR enter/return, own/foreign release and whether it fell outside TR, inside f, or in the re-acquire window).")
 	run.Assume("holding spans are bracketed by ticks of one atomic counter taken after Acquire returned / before release is called / before TemporarilyRelease is entered / after it returned, so the monitor can only under-count")
 	run.Assume("a holder stops counting as holding at the tick taken before the first call of its release func by any goroutine; holders acquired on a context that was cancelled (or being cancelled) when Acquire returned are not counted")
@@ -832,7 +838,7 @@ func TestCheck(t *testing.T) {
 
 	agg := vlib.NewHitAgg()
 	nT := run.N(240, 4000)
-	nR := run.N(40000, 1600000)
+	nR := run.N(30000, 1600000)
 	nP := run.N(1500, 100000)
 	run.Each(nT+nR+nP, 1, func(i int) {
 		if run.Violations() >= 6 {
